@@ -78,6 +78,17 @@ def uninstall():
         setattr(owner, name, orig)
 
 
+def _in_order(chunks, stream):
+    """True if every chunk occurs in `stream`, whole, one after the other."""
+    pos = 0
+    for c in chunks:
+        at = stream.find(c, pos)
+        if at < 0:
+            return False
+        pos = at + len(c)
+    return True
+
+
 # ------------------------------------------------------------------------------------------------------- C04
 def _mon_block1014(m):
     cls = m.Block1014
@@ -86,7 +97,7 @@ def _mon_block1014(m):
         def __init__(self, file_obj, *a, **k):
             orig(self, file_obj, *a, **k)
             snap = _snapshot(file_obj)
-            self.__dict__['_vm'] = {'data': bytearray(), 'raw': file_obj,
+            self.__dict__['_vm'] = {'data': bytearray(), 'chunks': [], 'raw': file_obj,
                                     'start': len(snap[0]) if snap and snap[1] == len(snap[0]) else None}
         return __init__
 
@@ -97,6 +108,7 @@ def _mon_block1014(m):
             if vm is not None:
                 try:
                     vm['data'] += bytes(b)
+                    vm['chunks'].append(bytes(b))
                 except Exception:
                     vm['start'] = None
             counters['C04:Block1014.write observed'] += 1
@@ -112,23 +124,23 @@ def _mon_block1014(m):
                 counters['C04:finalisations not observable'] += 1
                 return r
             out = snap[0][vm['start']:]
-            if len(out) % 1014 == 0 and len(vm['data']) < (len(out) // 1014) * 1012 - 2023:
-                # the file holds more than two blocks beyond what passed through write(): data reached it through an entry
-                # point this monitor does not see (a rewrite may add one, e.g. a method that takes several parts).  What was
-                # seen does not account for the file, so only the block structure is judged; data loss on such a path is
-                # for the property's own driver, which compares whole files with what it wrote.
+            why = refb.classify_blocked(out, bytes(vm['data']))
+            if why and len(out) % 1014 == 0 and len(vm['data']) < (len(out) // 1014) * 1012 and _in_order(vm['chunks'], refb.payload_stream(out)):
+                # the file holds more data than passed through write(), and everything that did pass is there, whole and in
+                # order: data reached the file through an entry point this monitor does not see (a rewrite may add one, e.g.
+                # a method that takes several parts).  What was seen does not account for the file, so only the block
+                # structure is judged; the property's own driver compares whole files with what it wrote.
                 counters['C04:finalisations judged on structure only (data not seen by the monitor)'] += 1
-                why = refb.well_blocked(out)
-                if why:
-                    _viol('C04', 'online:blocker_output:structure:bad_trailer', {'written_seen': len(vm['data']), 'file_len': len(out), 'detail': why})
-                vm['data'] = bytearray()
+                bad = refb.well_blocked(out)
+                if bad:
+                    _viol('C04', 'online:blocker_output:structure:bad_trailer', {'written_seen': len(vm['data']), 'file_len': len(out), 'detail': bad})
+                vm['data'], vm['chunks'] = bytearray(), []
                 vm['start'] = len(snap[0])
                 return r
-            why = refb.classify_blocked(out, bytes(vm['data']))
             counters['C04:finalisations judged'] += 1
             if why:
                 _viol('C04', 'online:blocker_output:' + why, {'written': len(vm['data']), 'file_len': len(out)})
-            vm['data'] = bytearray()
+            vm['data'], vm['chunks'] = bytearray(), []
             vm['start'] = len(snap[0])
             return r
         return finalise
